@@ -313,7 +313,9 @@ func c15Body(seq []string, resp *c15Result) func() {
 		// state key before the suffix
 		skip := func(k string) bool { return !strings.Contains(k, "/db/ps/") }
 		ownedA, nIDs := c15Retry(w.A.st.Snapshot())
-		res.key = fmt.Sprintf("%x|%x|%v|%v|%v|%d|%v", w.A.st.Snapshot().Hash(skip), w.B.st.Snapshot().Hash(skip), w.B.up, w.patched, ownedA, nIDs, replicating)
+		// the in-memory routing tables are part of the state (they are rebuilt at start from the peerstore)
+		routes := fmt.Sprint(len(w.A.peer.VerifReplicators()), len(w.B.peer.VerifReplicators()))
+		res.key = fmt.Sprintf("%x|%x|%v|%v|%v|%d|%v|%s", w.A.st.Snapshot().Hash(skip), w.B.st.Snapshot().Hash(skip), w.B.up, w.patched, ownedA, nIDs, replicating, routes)
 		if !replicating {
 			return
 		}
@@ -488,7 +490,7 @@ func runC15(args []string) int {
 	r.Assumptions = []string{
 		"transport: the gRPC invoke is intercepted by a dial option and handed to the target peer's real pushLogHandler, or refused while the target is down; block fetches read the other node's store while it is up; libp2p connectivity, gRPC back-off and real timer intervals are outside",
 		"retry intervals are configured negative (always due); the retry loop body is an explicit event",
-		"every event sequence runs on the scheduler's canonical schedule (one deterministic execution); states are de-duplicated by the store contents of both nodes without the time-stamped peerstore values",
+		"every event sequence runs on the scheduler's canonical schedule (one deterministic execution); states are de-duplicated by the store contents of both nodes (without the time-stamped peerstore values) plus the in-memory replicator routing tables",
 		"pubsub (gossip) delivery has no retry path in this code base and is not explored; only the replicator configuration is",
 		"an internal time budget ends the search with exhaustive=false and the depth completed, never with a verdict",
 	}
